@@ -99,6 +99,30 @@ def check_crop(o):
                     bad.append((tag + ": crop_to_pointcloud differs from crop with the same bounds", {}, None))
             except (ImageBoundaryError, ValueError):
                 bad.append((tag + ": crop_to_pointcloud refuses bounds that crop accepts", {}, None))
+    # crop_to_true_mask is the same crop: a mask that is true exactly one pixel inside the requested (whole-number) box, padded by 1
+    from menpo.image import MaskedImage
+
+    if res["err"] != "empty" and np.array_equal(mn, np.round(mn)) and np.array_equal(mx, np.round(mx)):
+        lo1, hi1 = mn.astype(int) + 1, mx.astype(int) - 1
+        if (hi1 >= lo1).all() and (lo1 >= 0).all() and (hi1 <= np.array(sh) - 1).all():
+            base = make_image("MaskedImage", sh, 2, "float64", "full")
+            m = np.zeros(sh, dtype=bool)
+            m[tuple(slice(a, b + 1) for a, b in zip(lo1, hi1))] = True
+            mi = MaskedImage(base.pixels.copy(), mask=m)
+            tag = "MaskedImage.crop_to_true_mask(boundary=1)"
+            try:
+                r = mi.crop_to_true_mask(boundary=1, constrain_to_boundary=c["constrain"])
+                err = ""
+            except ImageBoundaryError:
+                err = "ImageBoundaryError"
+            except ValueError:
+                err = "ValueError"
+            if err != res["err"]:
+                bad.append((tag + ": outcome %r, the same box through crop gives %r" % (err or "ok", res["err"] or "ok"), {"min": mn, "max": mx, "constrain": c["constrain"]}, None))
+            elif not err:
+                want = mi.pixels[(slice(None),) + sl]
+                if r.pixels.shape != want.shape or not np.array_equal(r.pixels, want) or not np.array_equal(r.mask.mask, m[sl]):
+                    bad.append((tag + ": is not the block the same box gives through crop", {"min": mn, "max": mx}, None))
     return bad
 
 
